@@ -823,7 +823,7 @@ pub struct Mutant {
     pub format: Format,
 }
 
-const DEGENERATE: [(&str, &str); 14] = [
+const DEGENERATE: [(&str, &str); 18] = [
     ("roller.count", "0"),
     ("trigger.limit", "0"),
     ("roller.base", "4294967295"),
@@ -838,6 +838,11 @@ const DEGENERATE: [(&str, &str); 14] = [
     ("roller.count", "4294967295"),
     ("trigger.min_size", "18446744073709551615"),
     ("roller.count", "-1"),
+    // units that only LOOK like the documented ones (KELVIN SIGN, LONG S, full-width letters): malformed values
+    ("trigger.limit", "10 \u{212A}b"),
+    ("trigger.limit", "3 \u{ff4b}\u{ff42}"),
+    ("trigger.interval", "5 \u{17F}econds"),
+    ("trigger.limit", "7 kb\u{200b}"),
 ];
 
 pub fn mutant_strategy() -> impl Strategy<Value = Mutant> {
@@ -1117,7 +1122,7 @@ fn apply(doc: &mut DV, lc: &LC, m: &Mutant) -> Expect {
             }
             // malformed beyond doubt (negative for an unsigned field, not representable in the field's type):
             // must be rejected, at the document layer (a format that cannot express it) or for that appender
-            let must_reject = value.starts_with('-') || value == "4294967296" || value.len() >= 30;
+            let must_reject = value.starts_with('-') || value == "4294967296" || value.len() >= 30 || !value.is_ascii();
             if must_reject {
                 Expect::RejectedSomewhere(a.name.clone())
             } else {
